@@ -439,6 +439,9 @@ func (self *Fork) updateId(id ForkId) {
 	}
 	// If we updated the path, we should load stage defs and create chunks.
 	if self.path != oldPath {
+		// What was loaded from the old path belongs to another fork.
+		self.chunks = nil
+		self.stageDefs = &StageDefs{ChunkDefs: []*ChunkDef{new(ChunkDef)}}
 		if err := self.split_metadata.ReadInto(StageDefsFile, &self.stageDefs); err == nil &&
 			self.stageDefs != nil {
 			width := util.WidthForInt(len(self.stageDefs.ChunkDefs))
